@@ -46,9 +46,9 @@ def bundle(H, g, name):
     b["tncc"] = get("two_node_clustering_coefficient", lambda: pernode(xgi.two_node_clustering_coefficient(H), frac), [])
     b["dens"] = get("density", lambda: frac(xgi.density(H)), [1, 0])
     # summaries of the degree / size statistics (ties must not be broken by insertion order)
-    b["summ"] = get("stat summaries", lambda: [int(H.nodes.degree.mode()), int(H.edges.size.mode()), scaled(H.nodes.degree.median()),
-                                               int(H.nodes.degree.max()), int(H.edges.size.min()),
-                                               scaled(H.nodes.degree(order=1).mean()), int(H.nodes.degree(order=1).mode())]
+    b["summ"] = get("stat summaries", lambda: [scaled(H.nodes.degree.mode()), scaled(H.edges.size.mode()), scaled(H.nodes.degree.median()),
+                                               scaled(H.nodes.degree.max()), scaled(H.edges.size.min()),
+                                               scaled(H.nodes.degree(order=1).mean()), scaled(H.nodes.degree(order=1).mode())]
                     if H.num_edges else [], [-1])
     b["idens"] = get("incidence_density", lambda: frac(xgi.incidence_density(H)), [1, 0])
     b["comps"] = get("connected_components", lambda: [sorted(iN(n) for n in c) for c in xgi.connected_components(H)], [])
